@@ -32,15 +32,17 @@ def stmtPlainOpts : Stmt → Bool
 
 /-- conditions on every table of either side -/
 def tableOK (tb : TableSpec) : Bool :=
-  tb.name != "" && tb.name != Migration.defaultMigrationTable && tb.fks.isEmpty
+  tb.name != "" && tb.name != Migration.defaultMigrationTable
 
 /-- conditions on a table both sides have: common columns in the same relative order, no empty column name, the same
-    primary key, and no index redefined under its name while all columns of its old (`up`) / new (`down`) definition go -/
+    primary key, no index redefined under its name while all columns of its old (`up`) / new (`down`) definition go, and
+    no foreign key redefined under its name (the recorded finding `foreign-key-redefined`) -/
 def bothOK (up : Bool) (tbO tbN : TableSpec) : Bool :=
   (tbN.colNames.filter (fun x => decide (x ∈ tbO.colNames))) == (tbO.colNames.filter (fun x => decide (x ∈ tbN.colNames))) &&
   (tbN.colNames ++ tbO.colNames).all (· != "") && tbO.pk == tbN.pk &&
   tbN.idxs.all (fun s => tbO.idxs.all (fun o => o.name != s.name || o == s ||
-    (if up then o.cols.any (fun c => tbN.colNames.contains c) else s.cols.any (fun c => tbO.colNames.contains c))))
+    (if up then o.cols.any (fun c => tbN.colNames.contains c) else s.cols.any (fun c => tbO.colNames.contains c)))) &&
+  tbN.fks.all (fun s => tbO.fks.all (fun o => s.name != o.name || decide (s = o)))
 
 def pairOK (up : Bool) (dbO dbN : DB) : Bool :=
   (dbO ++ dbN).all tableOK &&
@@ -62,8 +64,9 @@ def whyNot (g : Globals) (old new : List Stmt) (dbO dbN : DB) : String :=
   if g.dialect != .mysql then "dialect"
   else if !(old.all stmtElemSafe && new.all stmtElemSafe) then "vocabulary"
   else if !(old.all stmtPlainOpts && new.all stmtPlainOpts) then "inline-primary-key-or-reference"
-  else if !(dbO ++ dbN).all (fun tb => tb.fks.isEmpty) then "foreign-keys"
   else if !(dbO ++ dbN).all tableOK then "table-name"
+  else if !dbO.all (fun tbO => dbN.all (fun tbN => tbO.name != tbN.name ||
+      tbN.fks.all (fun s => tbO.fks.all (fun o => s.name != o.name || decide (s = o))))) then "foreign-key-redefined"
   else if !pairOK true dbO dbN then "common-table"
   else "inside"
 
